@@ -284,6 +284,20 @@ PROPS = {
         floors={"any": {"composites_compared": 60000, "labels:setters": 40, "setter_calls": 200000}},
         assumptions=["differential oracle: long-lived image vs fresh replica; the record of final properties is kept by the monitor at the API boundary"],
     ),
+    "C15": dict(
+        level="fault_enumeration", monitors={"mon_alloc": {"sources": ["mon_alloc.c", "vf_alloc.c", "vf.c"], "link": ["-Wl,--wrap=malloc,--wrap=calloc,--wrap=realloc,--wrap=free"]}},
+        runs=[dict(name="asan", monitor="mon_alloc", flavour="asan", cases={"quick": 19, "thorough": 19 * 40}),
+              dict(name="plain", monitor="mon_alloc", flavour="plain", cases={"quick": 19 * 4, "thorough": 19 * 120})],
+        rule="19 scenarios (region union/subtract/intersect/inverse/in-place/copy/init_rects with validation/union_rect growth/16-bit, image and gradient constructors, setters that copy, filter creation, "
+             "composites through the general path with scanline buffers beyond the stack buffer, alpha-map destination and transformed sources, glyph cache insert + composite_glyphs(_no_mask), composite_trapezoids/triangles + add_*, "
+             "fill_rectangles/fill_boxes, compute_composite_region); each is run once to count its N allocations (malloc/calloc/realloc wrapped at link time), then for EVERY k in 1..N with allocation k failing once and with k and all later ones failing; "
+             "oracles: no crash / ASan report, failures reported (NULL / FALSE), a failed region operation leaves the broken region which later operations propagate and fini accepts, calls that report success give the failure-free result, "
+             "drawing calls leave everything outside their rectangle untouched, and no block allocated during the scenario is live at its end; evaluations = injected runs; a cell = (scenario, k, mode, did an allocation fail)",
+        floors={"any": {"injected_runs": 400, "failures_reported": 100, "labels:failed_site": 15}},
+        exhaustive={"quick": True, "thorough": True},
+        exhaustive_note="exhaustive over (scenario, k, once/persistent) for the listed scenarios; the thorough tier repeats them with 40..120 size variants",
+        assumptions=["allocation sites are those reached by the 19 scenarios (listed in the evidence labels)", "realloc failure leaves the old block valid, as the C library does"],
+    ),
 }
 
 # ---------------------------------------------------------------- MANIFEST texts
@@ -367,6 +381,11 @@ MANIFEST_TEXT["C14"] = dict(
     technique="history-vs-fresh-replica differential runtime monitor over random setter/composite programs (record kept at the API boundary), default and general-only chains, plain + ASan",
     level_text="Exploration: 10^5..10^7 composites on images with 30-step setter histories, each compared bit-for-bit with fresh replicas given the same final properties and pixels; aimed at stale derived state (early-return comparisons, caches, dirty flags).",
     level_note="trusted: the property record in harness/mon_hist.c and the replica builder in vf_req.c")
+
+MANIFEST_TEXT["C15"] = dict(
+    technique="fault injection by link-time wrapping of malloc/calloc/realloc/free with exhaustive enumeration of the failing allocation index per scenario, under ASan, with live-block accounting",
+    level_text="Fault enumeration: for each of 19 API scenarios every allocation index k is failed once and persistently; crash, leak (live-block accounting), broken-region propagation, reporting and write confinement are checked after every injected run.",
+    level_note="trusted: the wrappers in harness/vf_alloc.c; sites not reached by the scenarios are not covered")
 
 NOT_CLAIMED = {p: "monitor not built yet in this round (design in DESIGN.md section 6); no claim is made" for p in
                ["C%02d" % i for i in range(1, 21)]}
